@@ -341,7 +341,12 @@ def schema_of_tree(t: tuple) -> dict:
     elif len(kids) == 1:
         s = schema_of_tree(kids[0])
     else:
-        s = {"anyOf": [schema_of_tree(k) for k in kids]}
+        alts = []
+        for k in kids:
+            a = schema_of_tree(k)
+            if a not in alts:
+                alts.append(a)
+        s = {"anyOf": alts} if len(alts) > 1 else alts[0]
     if fl[1] == "1" or fl[2] == "1":
         s = {"type": "array", "items": s}
     elif fl[3] == "1":
@@ -404,7 +409,9 @@ def make_search(oracle_doc, match_none):
                         continue
                     seen.add(key)
                     camp.hit("embedded:document_built_from_tree")
-                    for t in SEARCH_TARGETS[:2]:
+                    # (pydantic-v2 semantics only: a v1-style union built from an arbitrary tree coerces left to right,
+                    # e.g. "" into a class without required members — not the mechanism looked for)
+                    for t in (SEARCH_TARGETS[0], SEARCH_TARGETS[2]):
                         oracle_doc(ck, camp, doc, t, insts)
             if any(match_none(ck, f) for f in ck.failures) or len(seen) >= 12:
                 break
